@@ -159,6 +159,30 @@ impl Queries {
         }
         let mut positions: Vec<usize> = m.edge_positions(&extra, cap).into_iter().map(|p| p as usize).collect();
         positions.extend(boundary_args(len as usize));
+        // A uniform grid over the universe and the midpoints of the longest gaps and runs: structures that
+        // index by value / divisor (sample indexes, buckets) have regimes that no run edge falls into.
+        let grid = cap.max(64) as u128;
+        for i in 0..=grid {
+            positions.push((len / grid * i + (len % grid) * i / grid) as usize);
+        }
+        {
+            let mut spans: Vec<(u128, u128)> = Vec::new(); // (length, midpoint)
+            let mut prev = 0u128;
+            for &(s, l) in &m.runs {
+                spans.push((s - prev, prev + (s - prev) / 2));
+                spans.push((l, s + l / 2));
+                prev = s + l;
+            }
+            spans.push((len - prev, prev + (len - prev) / 2));
+            spans.sort_unstable_by(|a, b| b.cmp(a));
+            for &(l, mid) in spans.iter().take(8) {
+                if l > 2 {
+                    positions.push(mid as usize);
+                    positions.push((mid - l / 4) as usize);
+                    positions.push((mid + l / 4) as usize);
+                }
+            }
+        }
         positions.sort_unstable();
         positions.dedup();
 
@@ -166,6 +190,10 @@ impl Queries {
         let zeros = m.zeros();
         let around = |total: u128, marks: Vec<u128>| -> Vec<usize> {
             let mut v: Vec<usize> = Vec::new();
+            // uniform grid over the rank space
+            for i in 0..=grid {
+                v.push((total / grid * i + (total % grid) * i / grid) as usize);
+            }
             for x in marks {
                 for d in [x.wrapping_sub(1), x, x + 1] {
                     if d <= total + 1 {
